@@ -249,7 +249,9 @@ def it_next(M, fr, it):
             if isinstance(inner, IterV):
                 if inner.pos < len(inner.items): return True, inner.items.pop()
                 return False, None
-            raise Unsupported('rev of non-base iterator')
+            # any other double-ended source (chars, a mapped slice, ..): drain it once, then hand its elements out backwards
+            xs = drain_all(M, fr, inner); it.f[0] = IterV(xs)
+            return it_next(M, fr, it)
         if k == 'it:chain':
             okk, x = it_next(M, fr, it.f[0])
             if okk: return True, x
@@ -304,7 +306,10 @@ def to_iter(M, fr, v):
     if isinstance(v, VecV): return IterV(v.items)
     if isinstance(v, Agg) and v.name == '[]': return IterV(list(v.f))
     if isinstance(v, EnumV) and v.name == 'Option': return IterV([v.f[0]] if v.disc == 1 else [])
-    if isinstance(v, Ref): return IterV(elem_refs(M, v), 'ref')
+    if isinstance(v, Ref):
+        d = M.deref(v)
+        if isinstance(d, IterV) or (isinstance(d, Agg) and (d.name.startswith('it:') or d.name == 'Chars' or d.name.endswith('ops::Range'))): return d      # &mut iterator
+        return IterV(elem_refs(M, v), 'ref')
     raise Unsupported('into_iter of %r' % (v,))
 
 def opt_is_some(M, o):
@@ -1277,6 +1282,10 @@ def _to_string_display(M, fr, n, a):
     t = ty.lstrip('&').strip()
     if t in INT_W and t not in ('bool', 'char'): return Str(render_int(M, v, t))
     if t == 'char': return Str(encode_char(M, v))
+    if t == 'bool':
+        b = simp(v) if is_sym(v) else v
+        if is_sym(b): b = M.branch(tobool(b))
+        return Str('true' if b else 'false')
     r = user_display(M, fr, ty, a[0])
     if r is None: raise Unsupported('to_string of ' + ty)
     return r if isinstance(r, SymStr) else Str(r)
@@ -1665,7 +1674,16 @@ def _string_mut(M, fr, n, a):
     if op == 'clear': s.b = []; return UNIT
     if op == 'truncate':
         k = simp(a[1]); s.b = s.b[:k]; return UNIT
-    raise Unsupported('String::' + op)
+    if isinstance(s, SymStr): raise Unsupported('String::' + op + ' on an opaque string')
+    if op == 'pop':
+        if not s.b: return none()
+        st, c = _char_at_end(M, s, len(s.b)); s.b = s.b[:st]; return some(c)
+    k = simp(a[1])
+    if is_sym(k): raise Unsupported('symbolic index in String::' + op)
+    if k > len(s.b): raise Panic('assertion failed: self.is_char_boundary(idx)')
+    if 0 < k < len(s.b) and not M.branch((s.b[k] & 0xC0) != 0x80): raise Panic('assertion failed: self.is_char_boundary(idx)')
+    ins = encode_char(M, a[2]) if op == 'insert' else list(as_str(M, a[2]).b)
+    s.b = s.b[:k] + list(ins) + s.b[k:]; return UNIT
 
 @reg(r'^<std::vec::Vec<.*> as std::ops::Index<std::ops::RangeFull>>::index$|^<\[.*\] as std::ops::Index<std::ops::RangeFull>>::index$')
 def _index_full(M, fr, n, a): return a[0]
@@ -2085,3 +2103,192 @@ def _lazy_static_deref(M, fr, n, a):
                 if key not in _LAZY: _LAZY[key] = M.call_fn(key, [])
                 return Ref(Cell(_LAZY[key]))
     return NotImplemented
+
+# ------------------------------------------------------------------ further std models (added so that plausible rewrites of the code stay inside the encoding)
+def _split_pieces(M, fr, s, pat):
+    """pieces of s split on a string or character pattern (Python lists of bytes)"""
+    pred = _char_pred(M, fr, pat)
+    out = []; cur = []; i = 0
+    if pred is None:
+        p = _pat_bytes(M, pat)
+        while i < len(s.b):
+            if p and i + len(p) <= len(s.b) and M.branch(_match_at(s, i, p)): out.append(cur); cur = []; i += len(p)
+            else: cur.append(s.b[i]); i += 1
+    else:
+        while i < len(s.b):
+            it = Agg('Chars', [Str(s.b[i:]), 0]); okk, c = chars_next(M, fr, it); k = it.f[1]
+            if M.branch(pred(c)): out.append(cur); cur = []
+            else: cur.extend(s.b[i:i + k])
+            i += k
+    out.append(cur)
+    return out
+@reg(r'^core::str::<impl str>::(rsplit|split_terminator|rsplit_terminator|splitn|rsplitn|split_inclusive)$')
+def _str_split_more(M, fr, n, a):
+    op = n.rsplit('::', 1)[1]; s = as_str(M, a[0])
+    if op in ('splitn', 'rsplitn'):
+        cnt = simp(a[1])
+        if is_sym(cnt): raise Unsupported('symbolic splitn count')
+        pieces = _split_pieces(M, fr, s, a[2]); p = _pat_bytes(M, a[2]) if _char_pred(M, fr, a[2]) is None else None
+        if p is None: raise Unsupported('splitn with a character pattern')
+        if cnt == 0: return IterV([])
+        if op == 'splitn' and len(pieces) > cnt:
+            head = pieces[:cnt - 1]; rest = pieces[cnt - 1:]; joined = []
+            for k, x in enumerate(rest): joined += (p if k else []) + x
+            pieces = head + [joined]
+        if op == 'rsplitn':
+            if len(pieces) > cnt:
+                tail = pieces[len(pieces) - cnt + 1:]; rest = pieces[:len(pieces) - cnt + 1]; joined = []
+                for k, x in enumerate(rest): joined += (p if k else []) + x
+                pieces = [joined] + tail
+            pieces = pieces[::-1]
+        return IterV([Ref(Cell(Str(x))) for x in pieces])
+    if op == 'split_inclusive':
+        p = _pat_bytes(M, a[1]); pieces = _split_pieces(M, fr, s, a[1])
+        out = [x + p for x in pieces[:-1]] + ([pieces[-1]] if pieces[-1] else [])
+        return IterV([Ref(Cell(Str(x))) for x in out])
+    pieces = _split_pieces(M, fr, s, a[1])
+    if 'terminator' in op and pieces and not pieces[-1]: pieces = pieces[:-1]
+    if op.startswith('r'): pieces = pieces[::-1]
+    return IterV([Ref(Cell(Str(x))) for x in pieces])
+@reg(r'^core::str::<impl str>::(split_whitespace|split_ascii_whitespace)$')
+def _str_split_ws(M, fr, n, a):
+    s = as_str(M, a[0]); out = []; cur = []
+    for b in s.b:
+        if M.branch(b_or(*[v_eq(b, w) for w in (32, 9, 10, 13, 12)])):
+            if cur: out.append(cur); cur = []
+        else: cur.append(b)
+    if cur: out.append(cur)
+    return IterV([Ref(Cell(Str(x))) for x in out])
+@reg(r'^core::str::<impl str>::rmatch_indices$')
+def _str_rmatch_indices(M, fr, n, a):
+    r = _str_matches(M, fr, n.replace('rmatch_indices', 'match_indices'), a); r.items = r.items[::-1] if hasattr(r, 'items') else r.items
+    return r
+@reg(r'^<.* as std::iter::Iterator>::(take_while|skip_while)$')
+def _iter_take_skip_while(M, fr, n, a):
+    xs = drain_all(M, fr, to_iter(M, fr, a[0])); op = n.rsplit('::', 1)[1]; k = 0
+    while k < len(xs) and M.branch(M.call_closure(fr, a[1], [Ref(Cell(xs[k]))])): k += 1
+    return IterV(xs[:k] if op == 'take_while' else xs[k:])
+@reg(r'^<.* as std::iter::Iterator>::rposition$')
+def _iter_rposition(M, fr, n, a):
+    xs = drain_all(M, fr, to_iter(M, fr, a[0]))
+    for i in range(len(xs) - 1, -1, -1):
+        if M.branch(M.call_closure(fr, a[1], [xs[i]])): return some(i)
+    return none()
+@reg(r'^<.* as std::iter::Iterator>::(sum|product)(::<.*>)?$')
+def _iter_sum(M, fr, n, a):
+    xs = drain_all(M, fr, to_iter(M, fr, a[0])); prod = '::product' in n
+    acc = None
+    for x in xs:
+        while isinstance(x, Ref): x = M.deref(x)
+        acc = x if acc is None else (acc * x if prod else acc + x)
+    if acc is None: return 1 if prod else 0
+    return acc
+@reg(r'^<.* as std::iter::Iterator>::(max|min)$')
+def _iter_maxmin(M, fr, n, a):
+    xs = drain_all(M, fr, to_iter(M, fr, a[0])); op = n.rsplit('::', 1)[1]
+    if not xs: return none()
+    best = xs[0]
+    for x in xs[1:]:
+        xv = x; bv = best
+        while isinstance(xv, Ref): xv = M.deref(xv)
+        while isinstance(bv, Ref): bv = M.deref(bv)
+        if not (isinstance(xv, int) or is_sym(xv)): raise Unsupported('max/min over non-integers')
+        gt = (xv >= bv) if (isinstance(xv, int) and isinstance(bv, int)) else z3.UGE(tobv(xv, 64), tobv(bv, 64))
+        take = M.branch(gt) if op == 'max' else not M.branch(gt)
+        if take: best = x
+    return some(best)
+@reg(r'^<.* as std::iter::Iterator>::(max_by_key|min_by_key)$')
+def _iter_maxmin_by_key(M, fr, n, a):
+    xs = drain_all(M, fr, to_iter(M, fr, a[0])); op = 'max' if 'max_by_key' in n else 'min'
+    if not xs: return none()
+    best = xs[0]; bk = M.call_closure(fr, a[1], [Ref(Cell(best))])
+    for x in xs[1:]:
+        k = M.call_closure(fr, a[1], [Ref(Cell(x))])
+        if not ((isinstance(k, int) or is_sym(k)) and (isinstance(bk, int) or is_sym(bk))): raise Unsupported('max_by_key over non-integers')
+        ge = (k >= bk) if (isinstance(k, int) and isinstance(bk, int)) else z3.UGE(tobv(k, 64), tobv(bk, 64))
+        lt = (k < bk) if (isinstance(k, int) and isinstance(bk, int)) else z3.ULT(tobv(k, 64), tobv(bk, 64))
+        if (op == 'max' and M.branch(ge)) or (op == 'min' and M.branch(lt)): best = x; bk = k
+    return some(best)
+@reg(r'^<.* as std::iter::Iterator>::step_by$')
+def _iter_step_by(M, fr, n, a):
+    xs = drain_all(M, fr, to_iter(M, fr, a[0])); st = simp(a[1])
+    if is_sym(st): raise Unsupported('symbolic step')
+    if st == 0: raise Panic('assertion failed: step != 0')
+    return IterV(xs[::st])
+@reg(r'^<.* as std::iter::Iterator>::unzip(::<.*>)?$')
+def _iter_unzip(M, fr, n, a):
+    xs = drain_all(M, fr, to_iter(M, fr, a[0]))
+    return Agg('()', [VecV([x.f[0] for x in xs]), VecV([x.f[1] for x in xs])])
+@reg(r'^<.* as std::iter::Iterator>::inspect$')
+def _iter_inspect(M, fr, n, a): return to_iter(M, fr, a[0])
+@reg(r'^core::slice::<impl \[.*\]>::(starts_with|ends_with)$')
+def _slice_starts_ends(M, fr, n, a):
+    xs = seq(M, a[0]); ys = seq(M, a[1])
+    if len(ys) > len(xs): return False
+    part = xs[:len(ys)] if n.endswith('starts_with') else xs[len(xs) - len(ys):]
+    return b_and(*[v_eq(x, y) for x, y in zip(part, ys)])
+@reg(r'^core::slice::<impl \[.*\]>::(split_first|split_last)$')
+def _slice_split_first(M, fr, n, a):
+    xs = seq(M, a[0])
+    if not xs: return none()
+    if n.endswith('split_first'): return some(Agg('()', [Ref(Cell(xs[0])), Ref(Cell(VecV(list(xs[1:]))))]))
+    return some(Agg('()', [Ref(Cell(xs[-1])), Ref(Cell(VecV(list(xs[:-1]))))]))
+@reg(r'^core::slice::<impl \[.*\]>::reverse$')
+def _slice_reverse(M, fr, n, a):
+    v = D(M, a[0])
+    if not isinstance(v, VecV): raise Unsupported('reverse of a non-vector')
+    v.items = v.items[::-1]; return UNIT
+@reg(r'^core::slice::<impl \[.*\]>::swap$')
+def _slice_swap(M, fr, n, a):
+    v = D(M, a[0]); i = simp(a[1]); j = simp(a[2])
+    if not isinstance(v, VecV) or is_sym(i) or is_sym(j): raise Unsupported('swap')
+    if i >= len(v.items) or j >= len(v.items): raise Panic('index out of bounds')
+    v.items[i], v.items[j] = v.items[j], v.items[i]; return UNIT
+@reg(r'^std::vec::Vec::(truncate|split_off|swap_remove|dedup)$')
+def _vec_more(M, fr, n, a):
+    v = D(M, a[0]); op = n.rsplit('::', 1)[1]
+    if op == 'dedup': raise Unsupported('Vec::dedup')
+    k = simp(a[1])
+    if is_sym(k): raise Unsupported('symbolic index in Vec::' + op)
+    if op == 'truncate':
+        v.items = v.items[:k]; return UNIT
+    if op == 'split_off':
+        if k > len(v.items): raise Panic('`at` split index (is %d) should be <= len (is %d)' % (k, len(v.items)))
+        tail = v.items[k:]; v.items = v.items[:k]; return VecV(tail)
+    if op == 'swap_remove':
+        if k >= len(v.items): raise Panic('swap_remove index (is %d) should be < len (is %d)' % (k, len(v.items)))
+        x = v.items[k]; v.items[k] = v.items[-1]; v.items.pop(); return x
+@reg(r'^(?:core|std)::char::methods::<impl char>::(to_digit|from_u32|from_digit)$|^core::char::convert::<impl .*>::from_u32$')
+def _char_digit(M, fr, n, a):
+    op = n.rsplit('::', 1)[1]; c = simp(a[0])
+    if op == 'from_u32':
+        if is_sym(c): return some(c) if M.branch(z3.And(z3.ULE(tobv(c, 32), 0x10FFFF), z3.Not(z3.And(z3.UGE(tobv(c, 32), 0xD800), z3.ULE(tobv(c, 32), 0xDFFF))))) else none()
+        return some(c) if c <= 0x10FFFF and not (0xD800 <= c <= 0xDFFF) else none()
+    radix = simp(a[1])
+    if is_sym(radix) or radix not in (2, 8, 10, 16): raise Unsupported('radix')
+    if op == 'to_digit':
+        if is_sym(c):
+            c32 = tobv(c, 32)
+            if M.branch(z3.And(z3.UGE(c32, 48), z3.ULE(c32, 48 + min(radix, 10) - 1))): return some(c32 - 48)
+            if radix == 16:
+                if M.branch(z3.And(z3.UGE(c32, 97), z3.ULE(c32, 102))): return some(c32 - 87)
+                if M.branch(z3.And(z3.UGE(c32, 65), z3.ULE(c32, 70))): return some(c32 - 55)
+            return none()
+        ch = chr(c)
+        try:
+            d = int(ch, radix) if ch.isascii() and ch.isalnum() else None
+        except ValueError: d = None
+        return some(d) if d is not None else none()
+    raise Unsupported(op)
+
+@reg(r'^std::iter::once(::<.*>)?$')
+def _iter_once(M, fr, n, a): return IterV([a[0]])
+@reg(r'^std::iter::empty(::<.*>)?$')
+def _iter_empty(M, fr, n, a): return IterV([])
+@reg(r'^<&(u8|u16|u32|u64|usize|i8|i16|i32|i64|isize) as std::ops::(Rem|Add|Sub|Mul|Div)<(&)?(u8|u16|u32|u64|usize|i8|i16|i32|i64|isize)>>::(rem|add|sub|mul|div)$|^<(u8|u16|u32|u64|usize|i8|i16|i32|i64|isize) as std::ops::(Rem|Add|Sub|Mul|Div)<&(u8|u16|u32|u64|usize|i8|i16|i32|i64|isize)>>::(rem|add|sub|mul|div)$')
+def _ref_arith(M, fr, n, a):
+    op = n.rsplit('::', 1)[1]; ty = re.search(r'(u8|u16|u32|u64|usize|i8|i16|i32|i64|isize)', n).group(1)
+    x = a[0]; y = a[1]
+    while isinstance(x, Ref): x = M.deref(x)
+    while isinstance(y, Ref): y = M.deref(y)
+    return M.binop({'rem': 'Rem', 'add': 'Add', 'sub': 'Sub', 'mul': 'Mul', 'div': 'Div'}[op], x, y, ty)
